@@ -821,7 +821,19 @@ pub fn cmd_check(args: &[String]) -> i32 {
         return 2;
     }
 
-    let mut b = run_batch(&id, root, runs, if id == "C11" { secs / 2 } else { secs }, jobs, false, thorough, false);
+    let seq_secs = match id.as_str() {
+        "C11" => secs / 2,
+        "C08" => secs * 3 / 4,
+        _ => secs,
+    };
+    let mut b = run_batch(&id, root, runs, seq_secs, jobs, false, thorough, false);
+    if id == "C08" {
+        // last quarter of the budget: requests racing with block events under the scheduler (the start block of a
+        // receipt must be the height at which the request entered its critical section)
+        let c = run_batch(&id, root, u64::MAX / 4, secs - seq_secs, jobs, false, thorough, true);
+        merge_into(&mut b.merged, c.merged);
+        b.wall += c.wall;
+    }
     if id == "C11" {
         // second half of the budget: concurrent scenarios (deadlock search, aborts under interleavings, liveness probe)
         let c = run_batch(&id, root, u64::MAX / 4, secs / 2, jobs, false, thorough, true);
